@@ -168,6 +168,10 @@ def _worker(args):
         return {"harness_error": "worker exception:\n" + traceback.format_exc(), "indices": indices}
     finally:
         faulthandler.cancel_dump_traceback_later()
+        # the collector is off while runs execute and a chunk may be too short to reach the volume threshold above: whatever
+        # cyclic garbage the chunk left is collected before the worker takes the next one (C17's thorough tier - chunks of 25
+        # runs - grew every worker by 400 MB a minute until the machine ran out of memory)
+        gc.collect()
     return {"agg": agg, "keys": keys, "keys_sampled": sampled, "viols": viols, "digests": digests, "samples": samples,
             "evals": evals, "sim_seconds": sim_seconds, "runs": n}
 
